@@ -71,8 +71,7 @@ def shrink_candidates(item):
                 out.append({'kind': 'emul', 'lines': ls[:i] + ls[i + 1:]})
     return out
 
-def differs(tmpdir, item, h0, h1, n0, n1, key=None):
-    """Run one item in two interpreters; returns (differs?, out0, out1)."""
+def differs_once(tmpdir, item, h0, h1, n0, n1):
     fd, path = tempfile.mkstemp(prefix='item-', suffix='.json', dir=tmpdir)
     with os.fdopen(fd, 'w') as f:
         json.dump([item], f)
@@ -87,6 +86,23 @@ def differs(tmpdir, item, h0, h1, n0, n1, key=None):
     if is_bad(ra) or is_bad(rb):
         return False, ra, rb
     return ra != rb, ra, rb
+
+NOISE_TRIES = 6
+def differs(tmpdir, item, h0, h1, n0, n1, key=None):
+    """One item in two fresh interpreters.  A difference that comes from object
+    addresses depends on the allocation pattern, which a single-item replay
+    cannot reproduce bit for bit: the pair is tried under NOISE_TRIES seeded
+    allocation patterns and must differ under at least two of them."""
+    votes, first = 0, (None, None)
+    for k in range(NOISE_TRIES):
+        d, ra, rb = differs_once(tmpdir, item, h0, h1, n0 + k, n1 + 7919 * (k + 1))
+        if d:
+            votes += 1
+            if first == (None, None):
+                first = (ra, rb)
+            if votes >= 2:
+                break
+    return votes >= 2, first[0], first[1]
 
 def clause_fails(tmpdir, item, which):
     fd, path = tempfile.mkstemp(prefix='item-', suffix='.json', dir=tmpdir)
@@ -196,6 +212,8 @@ def main(args):
                 nt = len(res['dump_mem']) >= 2
             elif kind == 'lift':
                 nt = bool(res['lift'])
+            elif kind == 'symline':
+                nt = res.get('symline', 1) is not None
             else:
                 nt = len(res['r']) >= 2
             if nt:
@@ -218,9 +236,9 @@ def main(args):
             continue
         seen.add(cls)
         if cls.startswith('seed-dependence'):
-            votes = sum(1 for _ in range(3) if differs(tmpdir, item, hs[0], h, nz0, nz1)[0])
+            votes = 2 if differs(tmpdir, item, hs[0], h, nz0, nz1)[0] else 0
             if votes < 2:
-                batch.harness_errors.append('C13 difference (%s, hashseed %s) did not reproduce in fresh interpreters (%d of 3)' % (cls, h, votes))
+                batch.harness_errors.append('C13 difference (%s, hashseed %s) did not reproduce in fresh interpreter pairs under %d allocation patterns' % (cls, h, NOISE_TRIES))
                 continue
             small = minimise_item(item, lambda c: differs(tmpdir, c, hs[0], h, nz0, nz1)[0])
             _, o0, o1 = differs(tmpdir, small, hs[0], h, nz0, nz1)
@@ -276,12 +294,11 @@ def replay(path, tmpdir):
     if rec['class'].startswith('seed-dependence'):
         h0, h1 = rec['hashseeds']
         n0, n1 = rec['noise_seeds']
-        votes = sum(1 for _ in range(3) if differs(tmpdir, item, h0, h1, n0, n1)[0])
-        if votes >= 2:
+        if differs(tmpdir, item, h0, h1, n0, n1)[0]:
             print('VIOLATION property=C13 replay=%s' % path)
-            print('  class=%s reproduced=True votes=%d/3' % (rec['class'], votes))
+            print('  class=%s reproduced=True (differs under >= 2 of %d allocation patterns)' % (rec['class'], NOISE_TRIES))
             return 1
-        print('replay: outputs agree (%d/3 differed)' % votes)
+        print('replay: outputs agree')
         return 0
     ok, o = clause_fails(tmpdir, item, rec['class'])
     if ok:
